@@ -12,6 +12,10 @@ table    flow_mod bytes (built with our own struct code) go through SwitchEnd.rx
 
 The match is derived from a base frame (fields copied), the probe frames are the base frame
 and frames that differ from it in one OpenFlow field, so hits and near misses dominate.
+The wildcard word is built in full: ten single-bit wildcards, two six-bit counters and the ten
+reserved bits 22..31, which mean nothing and must change neither matching nor exactness
+(exact-rank-grid: exact entry with a small priority field vs every kind of wildcarded partner
+with a large one).
 """
 import json
 import struct
@@ -33,27 +37,34 @@ TECHNIQUE = ("differential testing against an independent OpenFlow 1.0 matcher: 
 LEVEL_TEXT = ("Exploration by generated-input search. All 1024 combinations of the ten single-bit wildcards are enumerated "
               "against every frame kind and a set of prefix lengths, each with the full set of one-field perturbations of "
               "the frame (so every field is seen equal, different-and-compared, and different-and-ignored); Hypothesis adds "
-              "random values, wildcard counters 0..63 and tables with mixed exact/wildcard entries and arbitrary priorities. "
+              "random values, wildcard counters 0..63, reserved wildcard bits and tables with mixed exact/wildcard entries and arbitrary "
+              "priorities; a second grid puts an exact-match entry with a small priority field against every kind of wildcarded partner "
+              "with a large one, for every frame kind, reserved-bit pattern and installation order. "
               "The product of all matches and all packets is infinite, so this is dense structured sampling judged by an "
               "independent reference, not a proof.")
 LEVEL_NOTE = ("trusts pvf/ref/of10_match as the reading of OpenFlow 1.0 (sections 3.4, 5.2.3 and the 1.0.1 prerequisite rule); "
               "zones the specification leaves open are counted, not judged")
-RULE = ("a case is a base frame spec, an in_port and either one match (wildcard bits, two prefix counters, how wildcarded "
-        "fields are filled) or a table of such matches with priorities; the match values are copied from the base frame and "
+RULE = ("a case is a base frame spec, an in_port and either one match (wildcard bits, two prefix counters, ten reserved high bits "
+        "of the wildcard word, how wildcarded fields are filled) or a table of such matches with priorities; the match values are copied from the base frame and "
         "the probes are the base frame plus one-field perturbations. Non-trivial: at least one judged probe is a hit or a "
         "near miss (the reference finds exactly one compared field different); for tables additionally counted: probes with "
-        ">= 2 matching entries of different priority. Distinct by SHA-1 of the canonical JSON of the case")
+        ">= 2 matching entries of different priority, and probes where an exact-match entry has to beat a matching wildcarded "
+        "entry with a larger priority field (label probe-exact-beats-higher-priority-wildcard, and ...-with-reserved-bits-... when "
+        "the exact entry's wire word carries reserved bits). Distinct by SHA-1 of the canonical JSON of the case")
 ASSUMPTIONS = [
   "pvf/ref/of10_match reads the specification correctly: VLAN id 0xffff / PCP 0 for untagged frames, type after the first tag, "
-  "802.2+SNAP(OUI 0) -> SNAP type, every other 802.3 frame (no SNAP, or SNAP with another OUI) -> 0x05ff and no nw/tp fields, ARP opcode low byte / SPA / TPA, ICMP type/code in tp_src/tp_dst, "
+  "802.2+SNAP(OUI 0) -> SNAP type, every other 802.3 frame (no SNAP, or SNAP with another OUI) -> 0x05ff and no nw/tp fields, "
+  "the same after an 802.1Q tag as without one (Table 3: VLAN fields from the tag; section 3.4 flow chart: continue with the type that "
+  "follows the tag; a length field is never an Ethernet type), ARP opcode low byte / SPA / TPA, ICMP type/code in tp_src/tp_dst, "
   "transport fields zero for every IP fragment (offset != 0 or MF)",
   "protocol specific fields take part only when the match itself specifies the protocol with a non-wildcarded field "
   "(dl_type 0x0800/0x0806 for nw_src/nw_dst/nw_proto, 0x0800 for nw_tos, additionally nw_proto in {1,6,17} for tp_src/tp_dst); "
   "a wildcarded field's value is never looked at",
-  "an entry is an exact match iff its wire wildcard word has no OFPFW_ALL bit set; an entry whose only wildcard bits sit on "
+  "an entry is an exact match iff its wire wildcard word has no OFPFW_ALL bit set; bits 22..31 of the word are reserved, mean "
+  "nothing and may hold anything a controller sends (neither matching nor exactness depends on them); an entry whose only wildcard bits sit on "
   "fields made inapplicable by the prerequisite rule may rank either as exact or by its priority (either accepted)",
   "not judged (counted as ambiguous): nw_tos when the frame has ECN bits or the match has the low two bits set; dl_vlan_pcp "
-  "against untagged frames where the two readings differ; 802.3 inside a VLAN tag; ARP opcode > 255; transport ports "
+  "against untagged frames where the two readings differ; ARP opcode > 255; transport ports "
   "matched with an IP protocol other than ICMP/TCP/UDP",
   "with two matching entries of equal effective priority either may win",
   "in an ambiguous zone the verdict is open but the operation is still judged: the comparison / lookup completes without an "
@@ -61,11 +72,15 @@ ASSUMPTIONS = [
   "outranked by an entry that matches under every reading",
   "frames are well formed (correct lengths and checksums, CFI 0); malformed frames belong to C15",
 ]
+_RANK_SCOPE = ("; table path (exact-rank-grid): every frame kind x 13 wildcarded partners (each single wildcard bit, nw_src/24, "
+               "nw_dst/0, everything wildcarded) with a larger priority field than an exact-match entry for the same frame x 5 "
+               "reserved-bit patterns in the wildcard word (none, bit 22, bit 31, all ten, mixed) x both installation orders, "
+               "probed with the frame and eight one-field perturbations")
 EXHAUSTIVE_SCOPE = {
-  "quick": "direct path: all 1024 single-bit wildcard combinations x prefix pairs {(32,32),(24,8),(0,31)} x 18 frame kinds x "
-           "{wildcarded fields zeroed, wildcarded fields holding adversarial garbage} x (base frame + every applicable one-field perturbation)",
+  "quick": "direct path: all 1024 single-bit wildcard combinations x prefix pairs {(32,32),(24,8),(0,31)} x 20 frame kinds x "
+           "{wildcarded fields zeroed, wildcarded fields holding adversarial garbage} x (base frame + every applicable one-field perturbation)" + _RANK_SCOPE,
   "thorough": "as quick with prefix lengths {0,1,8,24,31,32}^2 for all 1024 combinations, and all 33 x 33 prefix pairs for the "
-              "nw-only matches (dl_type specified, rest wildcarded) on IP and ARP frames",
+              "nw-only matches (dl_type specified, rest wildcarded) on IP and ARP frames" + _RANK_SCOPE,
 }
 
 _BITS = [b for _, b in M.BIT_FIELDS]
@@ -84,12 +99,18 @@ def setup():
 
 # --------------------------------------------------------------------------- building matches
 
-def _wild_word(bits10, nws, nwd):
+_RESV_SHIFT = 22                          # bits 22..31 of the wildcard word are reserved in OpenFlow 1.0
+
+
+def _wild_word(bits10, nws, nwd, resv=0):
+  """resv: ten bits placed in the reserved part (22..31) of the word; they mean nothing (OFPFW_ALL is
+  (1 << 22) - 1) and a controller may send anything there."""
   w = 0
   for i, b in enumerate(_BITS):
     if bits10 & (1 << i):
       w |= b
-  return w | ((nws & 0x3f) << M.OFPFW_NW_SRC_SHIFT) | ((nwd & 0x3f) << M.OFPFW_NW_DST_SHIFT)
+  w |= ((nws & 0x3f) << M.OFPFW_NW_SRC_SHIFT) | ((nwd & 0x3f) << M.OFPFW_NW_DST_SHIFT)
+  return w | ((resv & 0x3ff) << _RESV_SHIFT)
 
 
 def _garbage_value(f, v):
@@ -110,11 +131,11 @@ def _garbage_value(f, v):
   return (v ^ 0x0101) & 0xffff
 
 
-def build_match(pktf, bits10, nws, nwd, garbage):
+def build_match(pktf, bits10, nws, nwd, garbage, resv=0):
   """Match whose compared fields equal the frame's.  garbage: 0 = wildcarded fields (and address bits
   beyond the prefix) are zero, 1 = they hold the frame's values, 2 = they hold values that differ from
   the frame's and that would change the outcome if they were looked at."""
-  w = _wild_word(bits10, nws, nwd)
+  w = _wild_word(bits10, nws, nwd, resv)
   m = {"wildcards": w}
   for f, bit in M.BIT_FIELDS:
     v = pktf[f]
@@ -174,8 +195,13 @@ def _zone(pktf):
   notes = pktf.get("notes", ())
   for n in ("snap-oui", "snap", "llc", "fragment"):
     if n in notes:
-      return n
+      return ("vlan+" + n) if "vlan+llc" in notes else n
   return "plain"
+
+
+def _tagged_8023(pktf):
+  """802.1Q tag followed by an 802.3 length field (then LLC or LLC+SNAP)"""
+  return "vlan+llc" in pktf.get("notes", ())
 
 
 def _blame_refused(m, pkm):
@@ -229,7 +255,7 @@ def _mismatch_key(m, frame, in_port, pktf, ref, clause="match"):
     pl = M.prefix_len(m["wildcards"], M.OFPFW_NW_SRC_SHIFT if blame == "nw_src" else M.OFPFW_NW_DST_SHIFT)
     host_bits = pl > 0 and (m[blame] & ~M._mask(pl) & 0xffffffff) != 0
   return {"clause": clause, "ref": bool(ref), "blame": blame, "zone": _zone(pktf), "host_bits": host_bits,
-          "prereq_garbage": _prereq_garbage(m, blame)}
+          "prereq_garbage": _prereq_garbage(m, blame), "tagged_8023": _tagged_8023(pktf)}
 
 
 def _differing(m, pktf, e=None):
@@ -284,10 +310,12 @@ def case_direct(c, out):
   nws, nwd = c["nws"], c["nwd"]
   base = FS.mkframe(spec)
   basef = M.extract(base, in_port)
-  m = build_match(basef, c["bits"], nws, nwd, c.get("garbage", 0))
+  m = build_match(basef, c["bits"], nws, nwd, c.get("garbage", 0), c.get("resv", 0))
   raw = M.pack_match(m)
   pm = pox_decode(raw)
   out.label("garbage=%d" % c.get("garbage", 0), "zone=" + _zone(basef))
+  if m["wildcards"] & ~M.OFPFW_ALL:
+    out.label("reserved-wildcard-bits")
   if M.is_exact(m):
     out.label("exact-match")
   if _prereq_garbage(m):
@@ -310,6 +338,8 @@ def case_direct(c, out):
     ref = M.matches(m, pf, e)
     nd = _differing(m, pf, e)
     out.label("probe-hit" if nd == 0 else ("probe-near-miss" if nd == 1 else "probe-far"))
+    if _tagged_8023(pf):
+      out.label("probe-tagged-802.3:" + _zone(pf))
     if nd <= 1:
       out.nontrivial = True
     if what != "base" and ref:
@@ -365,17 +395,25 @@ def _ambiguous_lookup(out, sw, live, unsettled, what, frame, port, pf):
   if len(ports) + len(pins) != 1:
     out.fail("lookup-output", "outputs on ports %r and %d packet-ins for one frame; %s" % (ports, len(pins), desc))
     return
+  def refused():
+    # is it the matcher (an entry that matches under every reading is refused by POX's comparison) or the lookup?
+    for e in sorted(definite, key=lambda e: -lo(e)):
+      if not pox_matches(pox_decode(e["raw"]), frame, port):
+        return _mismatch_key(e["m"], frame, port, pf, True)
+    return None
   if pins:
     if definite:
-      out.fail("lookup-miss", "table miss although entries %r match under every reading; %s" % ([e["idx"] for e in definite], desc),
-               winner=_entry_kind(definite[0]["m"]))
+      k = refused() or {"clause": "lookup-miss", "winner": _entry_kind(definite[0]["m"])}
+      out.violations.append({"key": k, "msg": "table miss although entries %r match under every reading; %s" % (
+          [e["idx"] for e in definite], desc)})
     return
   got = [e for e in live if e["port"] == ports[0]]
   if not got:
     out.fail("lookup-output", "output on port %d which belongs to no live entry; %s" % (ports[0], desc))
   elif got[0] not in admissible:
-    out.fail("lookup-inadmissible", "entry %d fired; admissible under some reading are %r; %s" % (
-        got[0]["idx"], [e["idx"] for e in admissible], desc), matches=bool(got[0] in definite))
+    k = (refused() if got[0] in definite else None) or {"clause": "lookup-inadmissible", "matches": bool(got[0] in definite)}
+    out.violations.append({"key": k, "msg": "entry %d fired; admissible under some reading are %r; %s" % (
+        got[0]["idx"], [e["idx"] for e in admissible], desc)})
 
 
 def case_table(c, out):
@@ -389,7 +427,11 @@ def case_table(c, out):
       if r is not None:
         s2, p2 = r
     pf = M.extract(FS.mkframe(s2), p2)
-    m = build_match(pf, e["bits"], e["nws"], e["nwd"], e.get("garbage", 0))
+    m = build_match(pf, e["bits"], e["nws"], e["nwd"], e.get("garbage", 0), e.get("resv", 0))
+    if m["wildcards"] & ~M.OFPFW_ALL:
+      out.label("entry-reserved-wildcard-bits")
+      if M.is_exact(m):
+        out.label("entry-exact-with-reserved-wildcard-bits")
     entries.append({"m": m, "raw": M.pack_match(m), "prio": e["prio"], "port": _TAG0 + i, "idx": i})
   sw = TableSwitch(ports=_TAG0 + _MAX_ENTRIES)
   try:
@@ -434,6 +476,13 @@ def case_table(c, out):
         out.label("probe-several-priorities")
         if any(M.is_exact(e["m"]) for e in matching):
           out.label("probe-exact-vs-wildcard")
+          # the exactness rule decides: some wildcarded matching entry has the larger priority field
+          if any(e["prio"] > w["prio"] for w in winners for e in matching if not M.is_exact_semantic(e["m"])):
+            out.label("probe-exact-beats-higher-priority-wildcard")
+            if any(w["m"]["wildcards"] & ~M.OFPFW_ALL for w in winners):
+              out.label("probe-exact-with-reserved-bits-beats-higher-priority-wildcard")
+      if _tagged_8023(pf):
+        out.label("probe-tagged-802.3:" + _zone(pf))
       if len(winners) >= 2:
         out.label("probe-tie")
       emitted = sw.frame(frame, port)
@@ -493,7 +542,8 @@ def case_table(c, out):
       if k is None:
         wk = _entry_kind(winners[0]["m"])
         k = {"clause": "lookup-priority", "winner": wk, "got": _entry_kind(g["m"]),
-             "implied_wildcards": wk in ("exact-arp", "exact-other", "exact-ip-other")}
+             "implied_wildcards": wk in ("exact-arp", "exact-other", "exact-ip-other"),
+             "reserved_wildcard_bits": bool(winners[0]["m"]["wildcards"] & ~M.OFPFW_ALL)}
       out.violations.append({"key": k, "msg": "entry %d (priority %d, %s) fired but entry %d (priority %d, %s) outranks it; %s" % (
           g["idx"], g["prio"], _entry_kind(g["m"]), winners[0]["idx"], winners[0]["prio"], _entry_kind(winners[0]["m"]), desc)})
   finally:
@@ -535,6 +585,30 @@ def enum_direct(tier):
                  "probes": ["nw_src_in", "nw_src_out", "nw_dst_in", "nw_dst_out", "nw_src_hi", "nw_dst_hi"]}
 
 
+# reserved-bit patterns (ten bits, placed at 22..31): none, lowest, highest (bit 31), all, mixed
+_RESV_PATTERNS = [0, 0x001, 0x200, 0x3ff, 0x169]
+# the wildcarded partner of the exact entry: (bits, nws, nwd)
+_PARTNERS = [(1 << i, 0, 0) for i in range(10)] + [(0, 8, 0), (0, 0, 32), (1023, 32, 32)]
+_RANK_PROBES = ["in_port", "dl_src", "dl_vlan", "dl_type", "nw_tos", "nw_src_in", "nw_dst_hi", "tp_dst"]
+
+
+def enum_exact_rank():
+  """Table path: an exact-match entry (no bit of OFPFW_ALL set on the wire) with a small priority field next to
+  a wildcarded entry with a large one, both built from the same frame, in both installation orders, with every
+  reserved-bit pattern in the exact entry's wildcard word (and, in half of the cases, in the partner's).  The
+  probes are the frame itself (both match: the exact entry must take it) and one-field perturbations (only the
+  partner can match, and only when the changed field is the one it wildcards)."""
+  for name, spec in FS.CATALOG:
+    for pi, (bits, nws, nwd) in enumerate(_PARTNERS):
+      for ri, resv in enumerate(_RESV_PATTERNS):
+        for order in (0, 1):
+          exact = {"bits": 0, "nws": 0, "nwd": 0, "prio": 10 if order else 0, "garbage": 0, "pert": None, "resv": resv}
+          wild = {"bits": bits, "nws": nws, "nwd": nwd, "prio": 60000 if order else 0xffff, "garbage": (pi + ri) % 3,
+                  "pert": None, "resv": resv if (pi + ri + order) % 2 else 0}
+          yield {"kind": "table", "frame": spec, "in_port": 1 + (pi % 3), "entries": [wild, exact] if order else [exact, wild],
+                 "probes": _RANK_PROBES}
+
+
 # --------------------------------------------------------------------------- Hypothesis
 
 _u8 = st.integers(0, 255)
@@ -544,6 +618,7 @@ _mac = st.one_of(st.sampled_from([0x020000000001, 0xffffffffffff, 0x01005e000001
                  st.integers(0, (1 << 48) - 1)).filter(lambda x: x != 0x0180c2000000)
 _cnt = st.one_of(st.sampled_from([0, 1, 8, 16, 24, 31, 32, 33, 63]), st.integers(0, 63))
 _bits = st.one_of(st.sampled_from([0, 1023, 1023 & ~16, 1023 & ~(16 | 32), 0x3]), st.integers(0, 1023))
+_resv = st.one_of(st.sampled_from([0, 0, 0, 0, 0, 0x001, 0x200, 0x3ff]), st.integers(0, 0x3ff))
 _prio = st.one_of(st.sampled_from([0, 1, 2, 0x8000, 0xffff]), st.integers(0, 0xffff))
 
 
@@ -586,7 +661,7 @@ def _spec(draw):
 @st.composite
 def _direct(draw):
   return {"kind": "direct", "frame": draw(_spec()), "in_port": draw(st.integers(1, 3)), "bits": draw(_bits),
-          "nws": draw(_cnt), "nwd": draw(_cnt), "garbage": draw(st.sampled_from([0, 1, 2]))}
+          "nws": draw(_cnt), "nwd": draw(_cnt), "garbage": draw(st.sampled_from([0, 1, 2])), "resv": draw(_resv)}
 
 
 @st.composite
@@ -598,7 +673,7 @@ def _table(draw, max_entries):
     exact = draw(st.integers(0, 5)) == 0
     e = {"bits": 0 if exact else draw(_bits), "nws": 0 if exact else draw(_cnt), "nwd": 0 if exact else draw(_cnt),
          "prio": draw(st.one_of(st.sampled_from(prios), _prio)), "garbage": draw(st.sampled_from([0, 0, 1, 2])),
-         "pert": draw(st.sampled_from([None, None, None] + FS.PERTURBATIONS[:17]))}
+         "pert": draw(st.sampled_from([None, None, None] + FS.PERTURBATIONS[:17])), "resv": draw(_resv)}
     entries.append(e)
   return {"kind": "table", "frame": draw(_spec()), "in_port": draw(st.integers(1, 3)), "entries": entries}
 
@@ -607,11 +682,13 @@ def plan(tier):
   if tier == "quick":
     return [
       Enum("direct-grid", lambda: enum_direct("quick"), shards=16),
+      Enum("exact-rank-grid", enum_exact_rank, shards=16),
       Hyp("direct-generated", _direct, examples=4000, shards=8),
       Hyp("tables", lambda: _table(8), examples=500, shards=8),
     ]
   return [
     Enum("direct-grid", lambda: enum_direct("thorough"), shards=16),
+    Enum("exact-rank-grid", enum_exact_rank, shards=16),
     Hyp("direct-generated", _direct, examples=600000, shards=16),
     Hyp("tables", lambda: _table(16), examples=60000, shards=16),
   ]
